@@ -7,6 +7,7 @@ import Astits.Props.C14
 import Astits.Proofs.Layout
 import Astits.Proofs.PSIRT
 import Astits.Proofs.SIRT
+import Astits.Proofs.SpecEq.PSI
 namespace Astits.C13
 
 /-- one PAT entry: 16-bit program_number, 3 reserved bits, 13-bit PID — all values round-trip -/
@@ -704,5 +705,151 @@ example : (Spec.sectionEncode (siSection 0x4e true false (some (exSyntaxHeader 0
     = [0x4e, 0xb0, 0x38, 0x12, 0x34, 0xe3, 1, 2] := by decide +kernel
 
 end SITables
+
+/-! ## W3 — the PSI writers emit exactly the standard's layout: `writePSISection` / `writePSIData` = the independent
+reference encoder `Spec.sectionEncode` / `Spec.unitEncode` (Astits/Spec/PSI.lean: tables 2-30 / 2-33 and the generic
+section syntax transcribed with `Spec.enc`, CRC_32 from the bit-serial `Spec.crc`).  Helper development:
+Astits/Proofs/SpecEq/{Enc,PSI}.lean.  The section value the reference encoder expects is the section itself (it reads
+table id, flags, syntax header and table data; `SectionLength` and `CRC32` are recomputed), so `s' = s`. -/
+
+section WriterEqSpec
+open Astits.SpecEq
+
+/-- **one section** (PAT or PMT, `SpecEq.SecAgree`): all sub-structures present, `Header.SectionLength > 0`, and — PMT —
+every descriptor written on the number of bytes its length byte announces.  No range condition on any field and no
+bound on the section size: over-wide values and an over-long section_length are masked identically by both sides. -/
+theorem writePSISection_eq_sectionEncode (s : PSISection) (h : SecAgree s) :
+    writePSISection s = .ok (Spec.sectionEncode s) := writePSISection_eq_spec s h
+
+/-- **W3**, several sections per unit, any pointer_field that is a byte -/
+theorem writePSIData_eq_unitEncode (pf : Nat) (hpf : pf < 256) (ss : List PSISection) (h : ∀ s ∈ ss, SecAgree s) :
+    writePSIData { pointerField := (pf : Int), sections := ss } = .ok (Spec.unitEncode pf (ss.map Spec.sectionEncode) 0) :=
+  writePSIData_eq_spec pf hpf ss h
+
+/-- **W3** as stated: one section behind pointer_field 0 -/
+theorem writePSIData_eq_unitEncode_one (s : PSISection) (h : SecAgree s) :
+    writePSIData { pointerField := 0, sections := [s] } = .ok (Spec.unitEncode 0 [Spec.sectionEncode s] 0) :=
+  writePSIData_eq_spec 0 (by decide) [s] (fun x hx => by simp at hx; subst hx; exact h)
+
+/-- every PAT: ANY `PATData` (no hypothesis on the programs) -/
+theorem pat_secAgree (crc : Nat) (h : PSISectionHeader) (sh : PSISectionSyntaxHeader) (d : PATData)
+    (ht : h.tableID = 0) (hsl : h.sectionLength > 0) : SecAgree (mkPATSection crc h sh d) :=
+  ⟨⟨h, _, _, sh, rfl, rfl, rfl, rfl, hsl, .inl ⟨ht, rfl⟩⟩⟩
+
+theorem pmt_secAgree (crc : Nat) (h : PSISectionHeader) (sh : PSISectionSyntaxHeader) (d : PMTData)
+    (ht : h.tableID = 2) (hsl : h.sectionLength > 0) (hfit : PMTFits d) : SecAgree (mkPMTSection crc h sh d) :=
+  ⟨⟨h, _, _, sh, rfl, rfl, rfl, rfl, hsl, .inr ⟨ht, d, rfl, hfit⟩⟩⟩
+
+/-- the hypothesis of `pmt_roundtrip` is (much) stronger than what the writer/reference equality needs -/
+theorem pmtFits_of_ok (d : PMTData) (h : PMTOk d) : PMTFits d :=
+  ⟨fun x hx => (h.descs x hx).len, fun es hes x hx => ((h.streams es hes).descs x hx).len⟩
+
+theorem pmtFits_of_bodyFits (d : PMTData) (h1 : ∀ x ∈ d.programDescriptors, C14.BodyFits x)
+    (h2 : ∀ es ∈ d.elementaryStreams, ∀ x ∈ es.elementaryStreamDescriptors, C14.BodyFits x) : PMTFits d :=
+  ⟨descsFit_of_bodyFits _ h1, fun es hes => descsFit_of_bodyFits _ (h2 es hes)⟩
+
+/-- PAT, in the form of `pat_roundtrip` -/
+theorem pat_written_eq_spec (pf crc : Nat) (h : PSISectionHeader) (sh : PSISectionSyntaxHeader) (d : PATData)
+    (hpf : pf < 256) (ht : h.tableID = 0) (hsl : h.sectionLength > 0) :
+    writePSIData { pointerField := (pf : Int), sections := [mkPATSection crc h sh d] }
+      = .ok (Spec.unitEncode pf [Spec.sectionEncode (mkPATSection crc h sh d)] 0) :=
+  writePSIData_eq_spec pf hpf [_] (fun x hx => by simp at hx; subst hx; exact pat_secAgree crc h sh d ht hsl)
+
+/-- PMT, in the form of `pmt_roundtrip` -/
+theorem pmt_written_eq_spec (pf crc : Nat) (h : PSISectionHeader) (sh : PSISectionSyntaxHeader) (d : PMTData)
+    (hpf : pf < 256) (ht : h.tableID = 2) (hsl : h.sectionLength > 0) (hfit : PMTFits d) :
+    writePSIData { pointerField := (pf : Int), sections := [mkPMTSection crc h sh d] }
+      = .ok (Spec.unitEncode pf [Spec.sectionEncode (mkPMTSection crc h sh d)] 0) :=
+  writePSIData_eq_spec pf hpf [_] (fun x hx => by simp at hx; subst hx; exact pmt_secAgree crc h sh d ht hsl hfit)
+
+/-- the generators' pairs (`Gen/PSI.lean` `mkSection`: section in delivered form, reference bytes): the writer applied to
+the value emits the reference bytes — the statement the correspondence run checks case by case -/
+theorem mkSection_pat_written (priv : Bool) (sh : PSISectionSyntaxHeader) (d : PATData) :
+    writePSIData { pointerField := 0, sections := [(mkSection 0 priv (some sh) { pat := some d }).1] }
+      = .ok (Spec.unitEncode 0 [(mkSection 0 priv (some sh) { pat := some d }).2] 0) := by
+  have hl := sectionEncode_length (mkSection 0 priv (some sh) { pat := some d }).1
+  have e : Spec.sectionEncode (mkSection 0 priv (some sh) { pat := some d }).1 = (mkSection 0 priv (some sh) { pat := some d }).2 := rfl
+  rw [← e]
+  refine writePSIData_eq_unitEncode_one _ ⟨⟨_, _, _, sh, rfl, rfl, rfl, rfl, ?_, .inl ⟨rfl, rfl⟩⟩⟩
+  show (mkSection 0 priv (some sh) { pat := some d }).2.length - 3 > 0
+  rw [e] at hl
+  omega
+
+theorem mkSection_pmt_written (priv : Bool) (sh : PSISectionSyntaxHeader) (d : PMTData) (hfit : PMTFits d) :
+    writePSIData { pointerField := 0, sections := [(mkSection 2 priv (some sh) { pmt := some d }).1] }
+      = .ok (Spec.unitEncode 0 [(mkSection 2 priv (some sh) { pmt := some d }).2] 0) := by
+  have hl := sectionEncode_length (mkSection 2 priv (some sh) { pmt := some d }).1
+  have e : Spec.sectionEncode (mkSection 2 priv (some sh) { pmt := some d }).1 = (mkSection 2 priv (some sh) { pmt := some d }).2 := rfl
+  rw [← e]
+  refine writePSIData_eq_unitEncode_one _ ⟨⟨_, _, _, sh, rfl, rfl, rfl, rfl, ?_, .inr ⟨rfl, d, rfl, hfit⟩⟩⟩
+  show (mkSection 2 priv (some sh) { pmt := some d }).2.length - 3 > 0
+  rw [e] at hl
+  omega
+
+/-! ### non-vacuity, and the excluded points evaluated -/
+
+def exHdr (t sl : Nat) : PSISectionHeader :=
+  { privateBit := false, sectionLength := sl, sectionSyntaxIndicator := true, tableID := t, tableType := tableType t }
+def exSH : PSISectionSyntaxHeader :=
+  { currentNextIndicator := true, tableIDExtension := 1, versionNumber := 31, sectionNumber := 0, lastSectionNumber := 255 }
+
+theorem exPMTTyped_fits : PMTFits exPMTTyped := by
+  refine ⟨?_, ?_⟩
+  · intro x hx
+    simp [exPMTTyped] at hx; subst hx; decide +kernel
+  · intro es hes
+    simp [exPMTTyped] at hes
+    rcases hes with rfl | rfl | rfl
+    · intro x hx; simp at hx; rcases hx with rfl | rfl <;> decide +kernel
+    · intro x hx; simp at hx; rcases hx with rfl | rfl | rfl <;> decide +kernel
+    · intro x hx; simp at hx; subst hx; decide +kernel
+
+/-- a unit with pointer_field 3 carrying the realistic PMT `exPMTTyped` (registration, AVC video, stream identifier,
+ISO 639, AC-3, user-defined and subtitling descriptors) followed by the PAT `exPAT` -/
+example : writePSIData { pointerField := 3, sections := [mkPMTSection 0 (exHdr 2 1) exSH exPMTTyped, mkPATSection 0 (exHdr 0 17) exSH exPAT] }
+    = .ok (Spec.unitEncode 3 [Spec.sectionEncode (mkPMTSection 0 (exHdr 2 1) exSH exPMTTyped),
+        Spec.sectionEncode (mkPATSection 0 (exHdr 0 17) exSH exPAT)] 0) :=
+  writePSIData_eq_unitEncode 3 (by decide) _ (fun x hx => by
+    simp at hx
+    rcases hx with rfl | rfl
+    · exact pmt_secAgree _ _ _ _ rfl (by decide) exPMTTyped_fits
+    · exact pat_secAgree _ _ _ _ rfl (by decide))
+
+/-- the reference bytes of that PAT: table id 0, section_length 0x011, ts id 1, version 31 + current, two programs, CRC_32 -/
+example : Spec.unitEncode 0 [Spec.sectionEncode (mkPATSection 0 (exHdr 0 17) exSH exPAT)] 0
+    = [0, 0, 0xb0, 0x11, 0, 1, 0xff, 0, 0xff, 0, 1, 0xf0, 0, 0xff, 0xff, 0xff, 0xff, 0xed, 0xfd, 0x14, 0xd3] := by
+  decide +kernel
+
+/-- over-wide values are NOT excluded (program number 65545 ↦ 9, PID 8197 ↦ 5, version 33 ↦ 1, extension 65537 ↦ 1):
+both sides mask -/
+example : writePSIData { pointerField := 0, sections := [mkPATSection 0 (exHdr 0 1) { exSH with versionNumber := 33, tableIDExtension := 65537 }
+      { programs := [{ programMapID := 8197, programNumber := 65545 }] }] }
+    = .ok (Spec.unitEncode 0 [Spec.sectionEncode (mkPATSection 0 (exHdr 0 1) { exSH with versionNumber := 33, tableIDExtension := 65537 }
+      { programs := [{ programMapID := 8197, programNumber := 65545 }] })] 0) :=
+  pat_written_eq_spec 0 0 _ _ _ (by decide) rfl (by decide)
+
+def differsB (r : Res Bytes) (bs : Bytes) : Bool := match r with | .ok b => decide (b ≠ bs) | _ => true
+
+/-- excluded point 1: `Header.SectionLength = 0` (a section value built by hand without filling the derived field): the
+writer emits the three header bytes — announcing section_length 17 — and NOTHING else (Go: `if s.Header.SectionLength > 0`
+guards the syntax section and the CRC), the reference encoder emits the whole section -/
+example : (match writePSIData { pointerField := 0, sections := [mkPATSection 0 (exHdr 0 0) exSH exPAT] } with
+    | .ok b => decide (b = [0, 0, 0xb0, 0x11]) | _ => false) = true := by decide +kernel
+
+/-- excluded point 2: a descriptor whose body exceeds 255 bytes (`PMTFits` fails: the 8-bit descriptor_length wraps to 1
+while 257 bytes are written): the writer's loop length and section_length are computed from the wrapped value
+(0x003 / 0x010), the reference's from the bytes actually present (0x103 / 0x110) -/
+def exBigPMT : PMTData := { pcrPID := 0x100, programDescriptors := [userDescriptor 0x90 (List.replicate 257 7)] }
+example : (match writePSIData { pointerField := 0, sections := [mkPMTSection 0 (exHdr 2 1) exSH exBigPMT] } with
+    | .ok b => decide (b.take 13 = [0, 2, 0xb0, 0x10, 0, 1, 0xff, 0, 0xff, 0xe1, 0, 0xf0, 3]) | _ => false) = true
+  ∧ (Spec.unitEncode 0 [Spec.sectionEncode (mkPMTSection 0 (exHdr 2 1) exSH exBigPMT)] 0).take 13
+      = [0, 2, 0xb1, 0x10, 0, 1, 0xff, 0, 0xff, 0xe1, 0, 0xf1, 3] := by
+  constructor <;> decide +kernel
+
+/-- excluded point 3: a pointer field that is not a byte (Go `int`): the writer emits `uint8(256) = 0`, then 256 filler
+bytes; the reference would write the number itself -/
+example : differsB (writePSIData { pointerField := 256, sections := [] }) (Spec.unitEncode 256 [] 0) = true := by decide +kernel
+
+end WriterEqSpec
 
 end Astits.C13
